@@ -640,7 +640,10 @@ register("C05", run_C05, module="Robotools.Props.C05",
 register("C06", run_C06, module="Robotools.Props.C06",
          theorems=["Robotools.C06.partition_spec", "Robotools.C06.partition_zero", "Robotools.C06.multi_disp_fits",
                    "Robotools.C06.multi_disp_unchanged"], rule="(volume, max_volume) grid incl. k*M, k*M±step, non-integer M; plus transfers with split volumes")
-register("C07", run_C07, rule="transfer programs: shuffled triples with repeats, all wash schemes / partition modes / DiTi")
+register("C07", run_C07, module="Robotools.Props.C07",
+         theorems=["Robotools.C07." + t for t in ("flows_split", "flows_nosplit", "flows_perm", "flows_mode_indep", "discipline",
+                   "pair_volume_bounds", "break_closes", "no_break_without_split", "action_records", "pair_same_fields", "rejects_lengths",
+                   "rejects_negative", "base_refuses_transfer")], rule="transfer programs: shuffled triples with repeats, all wash schemes / partition modes / DiTi")
 register("C11", run_C11, rule="mixed histories; history compared after every operation against deep copies")
 register("C16", run_C16, rule="each program executed on EvoWorklist, FluentWorklist and BaseWorklist against one device-parametric model")
 
